@@ -139,6 +139,19 @@ CLAIMED = {
         note="floats modelled as reals; the values Y_lm themselves are C08's subject; N=3 (4 thorough), <=2-3 bonds per particle; "
              "bonds parallel to z, zero weights sums and c<0 excluded; Unsold's identity is a stated lemma for the opaque vectors.",
         ref="DESIGN.md C09"),
+    "C07": dict(
+        text="Bounded symbolic model checking of metamorphic pairs: on one explored path the real analysis runs on a symbolic "
+             "configuration and on its transformed copy, and the solver decides equality / permutation / column swap of the "
+             "outputs. Transformations with symbolic parameters: translation vector, integer image numbers per particle (concrete "
+             "orthogonal and triclinic cells), all relabellings (N=3), species swap, axis permutation with the box, rotation "
+             "(cos,sin on the unit circle; axis rotations in 3D), dilation. Observables: g(r), S(q), cut-off and N-nearest lists, "
+             "boo_2d psi/|psi|, boo_3d q_l, Q_l, w_l, w-hat_l, tetrahedral order, relaxation functions, gyration descriptors, "
+             "participation ratio, Hessian matrix (equal / P H P^T / axis-permuted).",
+        note="floats modelled as reals; N=3 (5 for tetrahedral order with 4 concrete); away from half-cell ties and equal "
+             "distances; q_l rotation only about z with the real table (l<=2), other boo_3d cells with opaque Y vectors matched "
+             "semantically; Hessian spectra follow from the decided matrix law (eigh stubbed); pair entropy and general SO(3) "
+             "not covered.",
+        ref="DESIGN.md C07"),
     "C18": dict(
         text="Bounded symbolic model checking of frame conditions: (a) the harnesses of C02-C06, C09-C17 re-run in frame mode, where "
              "every snapshot array and array argument is compared element-wise (solver) before/after on every path, a write monitor "
